@@ -119,16 +119,28 @@ def _member_alphabet():
 
 
 MEMBERS = _member_alphabet()
+# second alphabet: near-miss container kinds (Dict / DefaultDict, tuples of different lengths), empty containers of
+# several kinds, and a member that itself contains a union (re-entrant rewrite_Union); used with the member-order bit
+MEMBERS2 = (
+    ("Tuple[int]", Tuple[int]), ("Tuple[int,int]", Tuple[int, int]), ("DefaultDict[str,str]", DefaultDict[str, str]),
+    ("Dict[str,int]", Dict[str, int]), ("Set[Any]", Set[Any]), ("List[Union[Set[int],str]]", List[Union[Set[int], str]]),
+    ("NoneType", NoneType), ("B", K.B), ("Dict[str,Union[List[int],A]]", Dict[str, Union[List[int], K.A]]), ("List[Any]", List[Any]),
+    ("DefaultDict[Any,Any]", DefaultDict[Any, Any]), ("Tuple[int,int,int]", Tuple[int, int, int]), ("Set[int]", Set[int]),
+)
+ALPHABETS = {"MEMBERS": MEMBERS, "MEMBERS2": MEMBERS2}
 WRAPPERS = ("bare", "List", "DictValue", "TDField", "GeneratorYield", "Optional", "TupleElem", "DefaultDictValue")
 
 
-def build_union_type(t: Tape, n_members: int, wrappers=WRAPPERS, min_size=1):
+def build_union_type(t: Tape, n_members: int, wrappers=WRAPPERS, alphabet="MEMBERS", ordered=False, min_size=1):
     """A union whose member set is an arbitrary subset of the first n_members alphabet entries
-    (one include/exclude decision each), placed bare or inside a container position."""
+    (one include/exclude decision each), placed bare or inside a container position; with `ordered`
+    one more decision reverses the member order (rewriters walk members first to last)."""
     w = wrappers[t.take(len(wrappers))]
-    chosen = [typ for _name, typ in MEMBERS[:n_members] if t.take(2) == 1]
+    chosen = [typ for _name, typ in ALPHABETS[alphabet][:n_members] if t.take(2) == 1]
     if len(chosen) < min_size:
         chosen = [int]
+    if ordered and t.take(2) == 1:
+        chosen.reverse()
     u = Union[tuple(chosen)]
     if w == "bare":
         return u
